@@ -1,9 +1,9 @@
 CONSTANTS
-  NB = 8
+  NB = 16
   GWc = 4
-  Mode = "original"
-  DebugAsserts = FALSE
-  Zst = FALSE
+  Mode = "fixed"
+  DebugAsserts = TRUE
+  Zst = TRUE
 SPECIFICATION Spec
 INVARIANTS TypeOK CursorExact NoErr
 CHECK_DEADLOCK FALSE
